@@ -105,6 +105,23 @@ pub fn plane_sprite(plane: &Plane, modes: &[u16]) -> Sprite {
     sp.layers.push(l0);
     let backb = px_bytes(&plane.back);
     let srcb = px_bytes(&plane.src);
+    if plane.family == "K-linked-source" {
+        // frame 0 holds the backdrop and every mode layer's real source cel; frame 1 + k (the one rendered for mode k)
+        // shows layer 1 + k through a link chunk with fields of its own
+        sp.durations.push(100);
+        for (k, m) in modes.iter().enumerate() {
+            let mut l = LayerM::image(MODE_NAMES[*m as usize]);
+            l.blend = *m;
+            l.opacity = plane.lo;
+            sp.layers.push(l);
+            sp.cels.insert((0, 1 + k as u16), CelM { x: 0, y: 0, opacity: plane.co, content: CelContentM::Image { w: plane.w, h: plane.h, pixels: srcb.clone() }, ud: None });
+            let own = [255u8, 0, plane.co ^ 0x55, 128][k % 4];
+            sp.cels.insert((1 + k as u16, 1 + k as u16), CelM { x: 3 - (k as i16 % 7), y: (k as i16 % 5) - 2, opacity: own, content: CelContentM::Link(0), ud: None });
+            sp.cels.insert((1 + k as u16, 0), CelM { x: 0, y: 0, opacity: 255, content: CelContentM::Link(0), ud: None });
+        }
+        sp.cels.insert((0, 0), CelM { x: 0, y: 0, opacity: 255, content: CelContentM::Image { w: plane.w, h: plane.h, pixels: backb.clone() }, ud: None });
+        return sp;
+    }
     if plane.family == "S-shifted-sparse-cel" {
         // the source cel is a rectangle of its own, partly off the canvas, mostly empty; the plane's `src` is what of
         // it lies on the canvas (nothing = transparent). The backdrop is a full-canvas cel.
@@ -186,7 +203,8 @@ pub fn render_plane(plane: &Plane, modes: &[u16]) -> Result<Vec<Vec<u32>>, Viola
     let ase = load(&bytes).map_err(|e| Violation::new(format!("load-failed|blend-plane|{}", err_sig(&e)), format!("blend plane sprite failed to load: {}", e)))?;
     let mut out = Vec::with_capacity(modes.len());
     for (k, m) in modes.iter().enumerate() {
-        let r = guarded(|| ase.frame(k as u32).image());
+        let off = if plane.family == "K-linked-source" { 1 } else { 0 };
+        let r = guarded(|| ase.frame(k as u32 + off).image());
         match r {
             Ok(img) => {
                 if img.width() != plane.w as u32 || img.height() != plane.h as u32 {
@@ -554,6 +572,22 @@ pub fn plane_o(seed: u64, p: u64) -> Plane {
     Plane { family: "O-opaque-source", label: format!("O(p={})", p), back, src, lo, co, w, h }
 }
 
+/// [K] the source reaches the blender through a LINKED cel whose own chunk carries another opacity and position
+/// than the cel it links to (a linked cel renders exactly like its target): random pairs, random opacity pairs
+pub fn plane_k(seed: u64, p: u64) -> Plane {
+    let mut rng = Rng::derive(seed, "K", p);
+    let (w, h) = (16u16, 16u16);
+    let n = w as usize * h as usize;
+    let back: Vec<u32> = (0..n).map(|_| rng.u32() | if rng.chance(1, 2) { 0xff00_0000 } else { 0 }).collect();
+    let src: Vec<u32> = (0..n).map(|_| rng.u32()).collect();
+    let (lo, co) = match p % 3 {
+        0 => (255, rng.opacity()),
+        1 => (rng.opacity(), rng.opacity()),
+        _ => (rng.opacity(), 255),
+    };
+    Plane { family: "K-linked-source", label: format!("K(p={})", p), back, src, lo, co, w, h }
+}
+
 /// [T] the source pixels reach the blender through a tilemap cel: random pairs, all opacity pairs incl. 0 and 255
 pub fn plane_t(seed: u64, p: u64) -> Plane {
     let mut rng = Rng::derive(seed, "T", p);
@@ -869,6 +903,7 @@ pub enum Job {
     T { p: u64 },
     U { p: u64 },
     O { p: u64 },
+    K { p: u64 },
     I { p: u64 },
     Y { p: u64 },
     S { p: u64 },
@@ -944,6 +979,9 @@ pub fn schedule(tier: Tier, seed: u64) -> Vec<Job> {
     for p in 0..tier.pick(40, 600) {
         jobs.push(Job::I { p });
     }
+    for p in 0..tier.pick(36, 600) {
+        jobs.push(Job::K { p });
+    }
     for p in 0..tier.pick(12, 120) {
         jobs.push(Job::Y { p: if tier.pick(true, false) && p < 9 { (p * 7 + seed) % 36 } else if tier.pick(true, false) { 36 + p } else { p } });
     }
@@ -970,6 +1008,7 @@ pub fn job_plane(job: &Job, seed: u64) -> (Plane, &'static [u16]) {
         Job::T { p } => (plane_t(seed, *p), &ALL_MODES),
         Job::U { p } => (plane_u(seed, *p), &ALL_MODES),
         Job::O { p } => (plane_o(seed, *p), &ALL_MODES),
+        Job::K { p } => (plane_k(seed, *p), &ALL_MODES),
         Job::I { p } => (plane_i(seed, *p), &ALL_MODES),
         Job::Y { p } => (plane_y(seed, *p), &ALL_MODES),
         Job::S { p } => (plane_s(seed, *p), &ALL_MODES),
